@@ -172,7 +172,22 @@ type Config struct {
 	// DirSpelling is how the operator spelled the v1 key directory: "" canonical, "slash" with a
 	// trailing path separator (as in --keys_dir=/var/lib/acra/keys/). Same directory either way.
 	DirSpelling string `json:"dir_spelling,omitempty"`
+	// Link is a capability of the v1 storage: "" the storage supports hard links (Storage.Link
+	// works, MemFS and the real FileStorage on a POSIX file system), otherwise Storage.Link is
+	// refused on every call and the key store has to take its Storage.Copy path; everything else
+	// is the unchanged storage of the configuration (MemFS or the real filesystem.FileStorage).
+	// The value names the way the refusal is reported (see LinkRefusals): "eperm" *os.LinkError
+	// EPERM (FAT/exFAT, fs.protected_hardlinks), "enotsup" *os.LinkError EOPNOTSUPP (network and
+	// FUSE mounts), "exdev" *os.LinkError EXDEV (history directory on another mount), "plain" an
+	// error without errno (what Acra's own Redis storage returns). Ignored by v2.
+	Link string `json:"link,omitempty"`
 }
+
+// LinkRefusals are the values of Config.Link other than "" (hard links supported).
+var LinkRefusals = []string{"eperm", "enotsup", "exdev", "plain"}
+
+// LinkRefused reports whether the v1 storage of the configuration refuses hard links.
+func (c Config) LinkRefused() bool { return c.Format == "v1" && c.Link != "" }
 
 // spell returns the key directory as the operator wrote it.
 func (c Config) spell(dir string) string {
@@ -203,6 +218,9 @@ func (c Config) Name() string {
 	}
 	if c.DirSpelling != "" {
 		n += "-dir" + c.DirSpelling
+	}
+	if c.LinkRefused() {
+		n += "-nolink-" + c.Link
 	}
 	return n
 }
